@@ -61,7 +61,8 @@ FinalVerdict(t) ==
       strays == {k \in 1..Len(t.created) : ~Under(ws, t.created[k].path) /\ ~IsPrefix(t.created[k].path, ws)}
   IN
   IF t.status = "TIMEOUT" \/ t.truncated THEN "unbounded_run"
-  ELSE IF Cardinality(copied) > Cardinality(inputFiles) THEN "unbounded_copy"
+  \* at most one copy per input file; with header pre-processing (-I) every C file also gets a rewritten copy and the pre-processor's output
+  ELSE IF Cardinality(copied) > (IF "copy_factor" \in DOMAIN t THEN t.copy_factor ELSE 1) * Cardinality(inputFiles) THEN "unbounded_copy"
   ELSE IF strays # {} THEN "created_outside_workspace"
   ELSE ""
 
